@@ -43,7 +43,10 @@ Spec(e) ==
          [alive |-> al, tgt |-> pre.tgt, par |-> st.par, ch |-> st.ch, reads |-> Reads(ow, pre.tgt, al, Keys), exc |-> r]
 C20_OK(e) ==
   LET s == Spec(e) p == e.post IN
-  /\ AliveOf(p) = s.alive /\ p.tgt = s.tgt /\ p.par = s.par /\ p.ch = s.ch /\ p.reads = s.reads /\ e.exc = s.exc
+  /\ AliveOf(p) = s.alive /\ p.tgt = s.tgt /\ p.reads = s.reads /\ e.exc = s.exc
+  \* structure: as for any other node.  What a *refused* parent / children assignment leaves behind is C03's business
+  \* (where the pinned code has listed deviations, e.g. stolen children are not returned): here only that it is a forest.
+  /\ IF e.act \in {"sp", "sc"} /\ s.exc # Nil THEN WellFormed(p.par, p.ch) ELSE p.par = s.par /\ p.ch = s.ch
   /\ \A n \in s.alive: p.tgt[n] # Nil => p.reads[n] = p.reads[p.tgt[n]]
 TInit == l = 1
 TNext == l <= Len(Trace) /\ PrintT(ToString(<<"J", l, Trace[l].id, IF C20_OK(Trace[l]) THEN {} ELSE {"C20"}>>)) /\ l' = l + 1
